@@ -16,7 +16,7 @@ ID = "C13"
 TITLE = "Reception is independent of TCP segmentation"
 LEVEL = "exploration"
 RULE = (
-    "metamorphic: one console byte stream (1..6 frames of every status / answer / unknown kind, 8 % with one frame of 255..9000 payload bytes, both generations) is delivered "
+    "metamorphic: one console byte stream (1..6 frames of every status / answer / unknown kind, 8 % with one frame of 255..65523 payload bytes, both generations) is delivered "
     "to the real socket once whole and once cut at generated points (0..40 cuts, all-single-bytes, many-frames-in-one-chunk) "
     "with 0, one epsilon or one tick (4 %: 7 / 45 / 400 s) of virtual time (= loop turns) between chunks; both deliveries must produce the same "
     "messages, once each, in order, and as many as the reference framing finds. Thorough tier additionally enumerates every "
@@ -46,7 +46,8 @@ def _stream(rng, gen: int):
             frames.append(framegen.frame(rng, gen)[0])
     if rng.random() < 0.08:
         # the length field is 16 bits wide: a frame much longer than everyday traffic, somewhere in the stream
-        frames.insert(rng.randrange(len(frames) + 1), framegen.long_frame(rng, gen)[0])
+        size = rng.choice(framegen.HUGE_SIZES) if rng.random() < 0.25 else None
+        frames.insert(rng.randrange(len(frames) + 1), framegen.long_frame(rng, gen, size=size)[0])
     return frames
 
 
